@@ -655,7 +655,9 @@ func (e *emitter) fanin(s Scenario, x int) {
 }
 
 func (e *emitter) pool(s Scenario, x int) {
-	e.useSync = true
+	if s.Join == "mutex" {
+		e.useSync = true
+	}
 	jobs, wg, mu, total, cnt, res := fmt.Sprintf("jobs%d", x), fmt.Sprintf("wg%d", x), fmt.Sprintf("mu%d", x), fmt.Sprintf("total%d", x), fmt.Sprintf("cnt%d", x), fmt.Sprintf("res%d", x)
 	e.w("%s := %s", jobs, e.mkchan(s.Buf))
 	e.w("%s := 0", total)
@@ -911,6 +913,12 @@ func (e *emitter) racy(s Scenario, x int) {
 		}
 	}
 	loopBody := func(name, kind string) {
+		if kind == "incr" {
+			// Ego rejects a parameter that is never used
+			e.w("if d < 0 {")
+			e.w("    n = 0")
+			e.w("}")
+		}
 		e.w("for i := 0; i < n; i++ {")
 		e.ind++
 		for _, l := range op(name, kind) {
